@@ -15,7 +15,7 @@ Open Scope Z_scope.
    included — maps well-formed states to well-formed states and does not raise *)
 Theorem C02_step_wf : forall o args i s,
   wf_vm s -> pc_ok s -> instr_of o args = Some i -> valid_instr i = true -> runnable i = true ->
-  exists s', exec o (map PI args) s = Ok (tt, s') /\ wf_vm s'.
+  exists s', exec o (map PI args) s = Ok (tt, s') /\ wf_vm s' /\ op_count s' = op_count s.
 Proof. exact exec_wf. Qed.
 Print Assumptions C02_step_wf.
 
